@@ -187,6 +187,11 @@ def run(ctx) -> None:
             # ... and, inside watchdog.utils.patterns, that module's own private helpers (case folding, the any-match test)
             if isinstance(call.func, ast.Name) and call.func.id.startswith("_") and st.module is not None and st.module.name == "watchdog.utils.patterns" and st.fn.split(".")[0] != "filter_paths" and call.func.id in st.module.functions and call.func.id != "_match_path":
                 return (st.module.functions[call.func.id], st.selfcls, None)
+            # ... and private methods of the handler itself (the decision moved into `self._should_dispatch(event)`)
+            if isinstance(call.func, ast.Attribute) and isinstance(call.func.value, ast.Name) and call.func.value.id == "self" and call.func.attr.startswith("_") and not call.func.attr.startswith("__") and st.selfcls:
+                mfi = P.find_method(st.selfcls, call.func.attr)
+                if mfi is not None and not any(isinstance(d_, ast.Name) and d_.id in ("property", "staticmethod", "classmethod") for d_ in mfi.node.decorator_list):
+                    return (mfi, st.selfcls, None)
             return None
 
     en = Enumerator(HCfg(P))
